@@ -9,25 +9,7 @@ import z3
 from tplz3 import live, sre2z3
 from tplz3.zutil import Tally, X, bounded, check
 
-# resolva's own placeholder syntax (resolva/template.py)
-_PH = re.compile(r"{(?P<placeholder>.+?)(:(?P<expression>(\\}|.)+?))?}")
-DEFAULT = "[^/]*"
-
-
-def tokens(template: str) -> List[Tuple[str, str, str]]:
-    """[('lit', text, ''), ('ph', key, expr), ...]"""
-    out = []
-    pos = 0
-    for m in _PH.finditer(template):
-        if m.start() > pos:
-            out.append(("lit", template[pos:m.start()], ""))
-        expr = m.group("expression")
-        expr = DEFAULT if expr is None else expr.replace("\\{", "{").replace("\\}", "}")
-        out.append(("ph", m.group("placeholder"), expr))
-        pos = m.end()
-    if pos < len(template):
-        out.append(("lit", template[pos:], ""))
-    return out
+from tplz3.tpltokens import tokens, DEFAULT, _PH  # noqa: F401  (z3-free: the native replays import it too)
 
 
 _expr_cache: Dict[str, object] = {}
@@ -125,6 +107,17 @@ def mapping(conf: str = "shipped") -> Dict:
             if res == "sat":
                 t.violations.append({"what": f"Sid value {w!r} of '{key}' maps to a path value that the path patterns of '{n}' reject", "witness": w,
                                      "replay": {"module": "tplz3.replays", "func": "mapping_roundtrip", "args": {"config": n, "key": key, "value": w}, "env": {"VF_CONF": conf}}})
+            # the other direction (C06): a path value the path patterns accept and whose Sid value the Sid patterns accept maps back to itself
+            pback = x
+            for pv, sv in reversed(items):
+                pback = z3.If(x == z3.StringVal(pv), z3.StringVal(sv), pback)
+            pfwd = pback
+            for pv, sv in reversed(items):
+                pfwd = z3.If(pback == z3.StringVal(sv), z3.StringVal(pv), pfwd)
+            res, w = check(t, [z3.InRe(x, path_lang), z3.InRe(pback, sid_lang), pfwd != x, bounded(x)], f"{n}/{key}: fwd(back(path value)) != path value", x=x)
+            if res == "sat":
+                t.violations.append({"what": f"path value {w!r} of '{key}' in '{n}' is accepted and typed but does not map back to itself (path(c) of the typed Sid differs from the input path)", "witness": w,
+                                     "replay": {"module": "tplz3.replays", "func": "path_value_roundtrip", "args": {"config": n, "key": key, "value": w}, "env": {"VF_CONF": conf}}})
             t.samples.append({"config": n, "key": key, "mapping": mp})
     return t.result(f"C05-mapping[{conf}]", family="C05-mapping")
 
